@@ -11,6 +11,8 @@ type Word struct {
 	Text  string // lower case; a digit group for Digit words
 	Stop  bool   // an English function word (the, of, and, ...)
 	Digit bool   // a group of decimal digits: not a word
+	// Lookalike: an ordinary word that begins with get/set (setup, getaway): one word, not an accessor prefix
+	Lookalike bool
 }
 
 type ConceptMethod struct {
@@ -35,6 +37,10 @@ var ordinaryWords = []string{"order", "invoice", "customer", "payment", "stock",
 	"ticket", "route", "ship", "cancel", "refund", "compute", "render", "validate", "archive", "publish", "approve", "total",
 	"price", "address", "email", "history", "item", "line", "group", "owner", "batch", "ledger", "voucher", "parcel", "tariff",
 	"warehouse", "shipment", "coupon", "discount", "balance"}
+
+// ordinary words that merely BEGIN with the letters get/set (checked against both of coca's stop lists: none
+// of them is a stop word, so each counts as one word wherever it stands, alone or as the first segment)
+var accessorLookalikes = []string{"setup", "setback", "settle", "getaway", "settings", "getter"}
 
 // function words every English stop-word list contains (and coca's does)
 var stopWords = []string{"the", "of", "and", "for", "with", "to", "in", "by", "from", "or", "on", "at"}
@@ -69,6 +75,8 @@ func GenerateConcept(r *run.Rand, o ConceptOpts) *ConceptCase {
 					wd = Word{Text: r.Pick([]string{"2", "7", "10", "404", "2024"}), Digit: true}
 				case stopRate == "many" && r.Chance(1, 2), stopRate == "some" && r.Chance(1, 4):
 					wd = Word{Text: r.Pick(stopWords), Stop: true}
+				case r.Chance(1, 10) || (w == 0 && r.Chance(1, 8)):
+					wd = Word{Text: r.Pick(accessorLookalikes), Lookalike: true}
 				default:
 					wd = Word{Text: r.Pick(vocab)}
 				}
